@@ -363,6 +363,23 @@ where
 
 /// Lex `input` presented as a prefix of a longer allocation whose tail repeats the input, so that
 /// a read past the end of the slice changes the result instead of going unnoticed.
+/// The same with two different tails: the input repeated (a read past the end continues the last token) and UTF-8
+/// continuation bytes (a scan for the next char boundary that runs past the end keeps going).  The answers have to agree.
+pub fn with_tails(input: &[u8], f: impl Fn(&[u8]) -> Option<String>) -> Option<String> {
+    let a = with_tail(input, &f)?;
+    let mut buf = Vec::with_capacity(input.len() + 48);
+    buf.extend_from_slice(input);
+    for i in 0..48 {
+        buf.push(if i % 3 == 2 { 0x80 } else { 0xBF });
+    }
+    let b = f(&buf[..input.len()]).unwrap_or_default();
+    if a == b {
+        Some(a)
+    } else {
+        Some(format!("{a} TAILDEPENDENT {b}"))
+    }
+}
+
 pub fn with_tail<R>(input: &[u8], f: impl FnOnce(&[u8]) -> R) -> R {
     let mut buf = Vec::with_capacity(input.len() * 2 + 40);
     buf.extend_from_slice(input);
